@@ -207,6 +207,31 @@ def classify_side(rec):
 _OVER_NO_ORDER = re.compile(r"OVER \((?:PARTITION BY (?:[^()]|\([^()]*\))*?)?(?:ROWS |RANGE |\))")
 
 
+def unordered_limits(sql):
+    """number of LIMIT / OFFSET clauses whose own SELECT has no ORDER BY (window OVER clauses do not count)"""
+    n = 0
+    for m in re.finditer(r" (?:LIMIT|OFFSET) -?\d+", sql):
+        if re.search(r"LIMIT -?\d+$", sql[:m.start()]):
+            continue                    # the OFFSET of a LIMIT .. OFFSET pair
+        depth, i, seg = 0, m.start(), []
+        while i > 0:
+            i -= 1
+            ch = sql[i]
+            if ch == ")":
+                depth += 1
+            elif ch == "(":
+                if depth == 0:
+                    break
+                depth -= 1
+            elif depth == 0:
+                seg.append(ch)
+        flat = "".join(reversed(seg))
+        flat = flat[flat.rfind("SELECT "):] if "SELECT " in flat else flat
+        if "ORDER BY" not in flat:
+            n += 1
+    return n
+
+
 def union_lists(sql):
     """[(select list of the top operand, select list of the bottom operand)] for every UNION ALL"""
     out = []
@@ -294,7 +319,9 @@ def classify_c06(rec):
         if re.search(r"(?m)^take [^\n]*\nsort [^\n]*\ntake [^\n]*\n(?:group|aggregate)", prql) and len(re.findall(r"\bLIMIT\b", sql)) <= 1:
             return "F37-takes-merged-across-sort-before-group"
         # an OVER clause lost its ORDER BY relative to the base program's SQL (the same window has one there)
-        if has_let and re.search(r"\bsort\b", prql) and len(_OVER_NO_ORDER.findall(sql)) > len(_OVER_NO_ORDER.findall(rec.get("base_sql") or "")):
+        # ... and no LIMIT lost its ORDER BY (that would be a different defect: a positional take over an unordered SELECT)
+        if has_let and re.search(r"\bsort\b", prql) and len(_OVER_NO_ORDER.findall(sql)) > len(_OVER_NO_ORDER.findall(rec.get("base_sql") or "")) \
+                and unordered_limits(sql) <= unordered_limits(rec.get("base_sql") or ""):
             return "F62-let-loses-window-order"
         if "UNION ALL" in sql and union_pruned(sql, lab.startswith("let2-append")):
             return "F28-append-prune"
@@ -409,7 +436,7 @@ def beta_stream(ck, cases):
 
 # ------------------------------------------------------------------------------ main
 
-def gen_batch(ck, rng, n_base, n_two, n_dir, site_hist):
+def gen_batch(ck, rng, n_base, n_two, n_dir, site_hist, n_sorted=60):
     """base programs with all their rewritten variants"""
     cases = []
     g = W.RGen(rng, max_steps=6)
@@ -445,6 +472,27 @@ def gen_batch(ck, rng, n_base, n_two, n_dir, site_hist):
                 q = W.random_chain(rp, rng, ln)
                 if len(q.trace) == ln:
                     c.add("compose", "+".join(q.trace), q.prql())
+        cases.append(c)
+
+    # directed: a sort, then a positional transform (take / window / take per group), then a transform that forces the
+    # positional one into a sub-query of its own -- the order has to cross whatever boundary a rewrite puts after the sort
+    g4 = W.RGen(rng, max_steps=6)
+    for _ in range(n_sorted):
+        pre = [rng.choice(["derive", "filter", "select"]) for _ in range(rng.randint(0, 2))]
+        pos = rng.choice(["take", "take", "win", "group_take"])
+        post = rng.choice(["filter", "filter", "derive", "select", "sort", "aggregate", "group_agg", "take"])
+        pg = g4.program(n_steps=len(pre) + 3 + rng.randint(0, 1), force=pre + ["sort", pos, post])
+        insts = [P.gen_instance(rng, max_rows=6, min_rows=4), P.gen_instance(rng, max_rows=5, min_rows=3)]
+        c = make_case(pg, insts)
+        rp = W.from_program(pg)
+        for lab, q in W.sites_let(rp, rng) + W.sites_identity(rp, rng) + W.sites_filter_split(rp, rng) + W.sites_filter_merge(rp, rng) \
+                + W.sites_trfunc(rp, rng, per_site=1, maxlen=2) + W.sites_func(rp, rng, per_slot=1):
+            k = W.kind_of(lab)
+            c.add(k, lab, q.prql(), q.coq() if k in ("filter", "identity") else None)
+        for _ in range(2):
+            q = W.random_chain(rp, rng, 2)
+            if len(q.trace) == 2:
+                c.add("compose", "+".join(q.trace), q.prql())
         cases.append(c)
 
     # two references to one let-table (append, self-join)
